@@ -51,7 +51,10 @@ func c03Scenarios() []hpScenario {
 								if !vreport.Thorough() {
 									// quick tier: a covering subset (every first outcome with and without
 									// retry / per-try timeout / disconnect; bodies and one-way on the main outcomes)
-									if body && (f != upReply200 && f != upSilent) {
+									// (early responses: a retriable 5xx, then a retry nobody answers, no per-try
+									// timeout - only the route timeout can complete the request)
+									early := f == upReply5xx && s2 == upSilent && !try && !oneway
+									if body && (f != upReply200 && f != upSilent) && !(early && !disc) {
 										continue
 									}
 									if oneway && (retry || try || (f != upReply200 && f != upClose)) {
@@ -60,7 +63,7 @@ func c03Scenarios() []hpScenario {
 									if disc && (body || (retry && try)) {
 										continue
 									}
-									if s2 == upSilent && !try && f != upClose {
+									if s2 == upSilent && !try && f != upClose && !early {
 										continue
 									}
 								}
@@ -147,6 +150,18 @@ func c03Core(sc *hpScenario) bool {
 
 func c03Name(sc *hpScenario) string { return hpScenarioName(sc) }
 
+// c03EndMs: the virtual clock (ms) when the running execution came to rest (set by thread 0 right
+// after hpBody's final Quiesce, which lets every armed timer fire first).
+var c03EndMs int64
+
+// c03GlobalTimeoutMs: the global timeout in force for a request (codec-supplied timeout, else the route's).
+func c03GlobalTimeoutMs(sc *hpScenario, rq *hpRequest) int64 {
+	if rq.TimeoutMs > 0 {
+		return int64(rq.TimeoutMs)
+	}
+	return int64(sc.RouteTimeoutMs)
+}
+
 // c03Check evaluates the oracle on one finished execution.
 func c03Check(sc *hpScenario, obs *hpObs, r *vrt.Result, report func(kind, detail string)) {
 	if r.Diverged != "" {
@@ -220,7 +235,15 @@ func c03Check(sc *hpScenario, obs *hpObs, r *vrt.Result, report func(kind, detai
 				sig = f[0] + " " + f[1] + " " + f[2] + fmt.Sprintf(" retried=%v", obs.Attempts[rq.Token] > 1)
 			}
 			sig += fmt.Sprintf(" deviations=%d", r.Cost)
-			if false {
+			// "a request whose upstream never answers is completed by the configured timeout": the
+			// execution came to rest (no runnable thread, no armed timer) with the worker still waiting
+			// although the route timeout of this request never elapsed on the virtual clock - there was
+			// no timer left that could complete it (never armed, or stopped). The recorded arbitration
+			// defects all let the global timer run out (its callback loses or is swallowed); this class
+			// is a different one and gets its own key.
+			if lim := c03GlobalTimeoutMs(sc, &rq); workerBlocked != "" && lim > 0 && c03EndMs < lim {
+				sig += "; no timer left to complete it: execution at rest before the route timeout elapsed"
+				full += fmt.Sprintf(" [virtual clock at rest %dms < timeout %dms]", c03EndMs, lim)
 			}
 			report("request never completed (no response, client did not disconnect): "+w+"; "+sig,
 				fmt.Sprintf("scenario %s, request %s; state: %s; blocked=%v log=%v", sc.Name, rq.Token, full, r.Blocked, obs.Log))
@@ -309,7 +332,9 @@ func c03RunScenario(p *vreport.Part, sc hpScenario, replay bool, deadline time.T
 	}
 	st := vrt.Explore(opts, func() {
 		*obs = hpObs{}
+		c03EndMs = 0
 		hpBody(&sc, obs)
+		c03EndMs = int64(vrt.Now() / time.Millisecond)
 	}, func(r *vrt.Result) {
 		p.Eval()
 		if os.Getenv("VERIF_DEBUG") != "" {
@@ -398,5 +423,5 @@ func TestVerifC03Terminal(t *testing.T) {
 	}
 	p.Note("scenarios", n)
 	p.End(complete, fmt.Sprintf("%d scenarios (this shard), all schedules of worker / upstream readers / timers / downstream reader with <=%d deviations from the default scheduler (delay bounding; quick tier: %d for the non-core scenarios); timers fire in virtual-deadline order; per-scenario execution cap %d", n, bound, bound-1, vreport.Pick(60000, 150000)),
-		"scenario grid {two-way,one-way}x{body}x{retry policy}x{per-try timeout}x{per-attempt upstream script}x{downstream disconnect} + connect failures, no route/no host/unhealthy, overflow, split reply; one evaluation = one complete execution of the real proxy stack under one schedule; distinct = distinct (scenario, observed downstream frames, upstream attempts, peer actions)")
+		"scenario grid {two-way,one-way}x{body}x{retry policy}x{per-try timeout}x{per-attempt upstream script}x{downstream disconnect} + connect failures, no route/no host/unhealthy, overflow, split reply; early responses: retriable 5xx x silent retry x no per-try timeout (only the route timeout can complete the request; an unanswered request at rest before the route timeout elapsed on the virtual clock is its own finding class); one evaluation = one complete execution of the real proxy stack under one schedule; distinct = distinct (scenario, observed downstream frames, upstream attempts, peer actions)")
 }
